@@ -30,7 +30,8 @@ CONSTANTS Depth,      \* bound on Len(hist) under cache configuration "valid"
 AllConfigs == {"valid",    \* table files written by an earlier process with the same grammars
                "empty",    \* empty cache directory
                "other",    \* each grammar's module name holds the tables of the other grammar
-               "oldsig"}   \* loadable tables of an older revision of the grammar (other signature)
+               "oldsig",   \* loadable tables of an older revision of the grammar (other signature)
+               "oldrules"} \* tables written by the same PLY for an older revision of the grammar rules (its own signature)
 
 (* kind: "pure" | "read" (machine passed for reading) | "write" (machine passed to be updated) *)
 (* m: 0 = no machine, 1 = m1 = x86_machine(), 2 = m2 = x86_machine() + {eax,edx,ebx,w,es bound} *)
@@ -50,6 +51,7 @@ Menu == <<
   [c |-> "str_shl",     api |-> "str",        kind |-> "pure",  m |-> 0, ex |-> FALSE],  \* Intel rendering of the shared instruction
   [c |-> "att_shl",     api |-> "str_att",    kind |-> "pure",  m |-> 0, ex |-> FALSE],  \* AT&T rendering of the same object
   [c |-> "lift_shl",    api |-> "lift",       kind |-> "pure",  m |-> 0, ex |-> FALSE],  \* get_instr_expr on the same object
+  [c |-> "lift_popad",  api |-> "lift",       kind |-> "pure",  m |-> 0, ex |-> FALSE],  \* get_instr_expr on a shared popad (61): walks the register tables
   [c |-> "str_sse",     api |-> "str",        kind |-> "pure",  m |-> 0, ex |-> FALSE],  \* Intel rendering of a shared SSE instruction with a mandatory prefix (f3 0f 10 c1)
   [c |-> "simp_T",      api |-> "expr_simp",  kind |-> "pure",  m |-> 0, ex |-> FALSE],  \* shared tree over eax, w
   [c |-> "simp_S",      api |-> "expr_simp",  kind |-> "pure",  m |-> 0, ex |-> FALSE],  \* expr_simp(expr_simp(T))
@@ -86,7 +88,7 @@ AllCalls == Menu \o Extra
 (* literals (byte strings, text lines), the shared instruction objects, the shared identifier w, the      *)
 (* shared trees T, U, Q, the program counter constant, the module-level register expressions of ia32_sem, *)
 (* and the one piece of interpreter-wide state every later import of the client depends on: sys.path      *)
-Fixtures == <<"lit", "I_shl", "I_add", "I_push", "I_pop", "I_moves", "I_sete", "I_div", "I_sse", "I_rep67", "K", "w", "T", "U", "Q", "C", "pc", "regs", "sys.path">>
+Fixtures == <<"lit", "I_shl", "I_add", "I_push", "I_pop", "I_moves", "I_sete", "I_div", "I_sse", "I_rep67", "I_popad", "K", "w", "T", "U", "Q", "C", "pc", "regs", "sys.path">>
 ASSUME PrintT("MENU " \o ToJson([calls |-> AllCalls, n |-> N, fixtures |-> Fixtures]))
 
 VARIABLES cfg,    \* cache configuration of the process that runs the history
